@@ -31,6 +31,10 @@ def main():
         out = {'id': a['id'], 'raised': None}
         print('START ' + json.dumps({'id': a['id']}), flush=True)
         BANE.sigmaclip = maxrange if a.get('patch') == 'maxrange' else real
+        if a.get('copy_from'):
+            # the file at this path is REPLACED between two runs of the same process (state kept between calls must not matter)
+            import shutil
+            shutil.copyfile(a['copy_from'], a['path'])
         t0 = time.time()
         try:
             res = BANE.filter_image(a['path'], out_base=a.get('out_base'), step_size=tuple(a['step']) if a.get('step') else None,
